@@ -19,6 +19,10 @@ RULE = (
     "gives the same verdict. distinct = distinct (offer class sequence) histories; non-trivial = history with >= 1 accepted and "
     ">= 1 rejected offer."
 )
+RULE_ADDENDUM = (
+    'Further offer classes: replayed signatures, draft thresholds, superset take-over, raw-shaped entries under root keys, decoy roles, one insider key under several spellings, an offered rule naming one key twice; persistence by library write / atomic replace / external writer; command-line verdicts for some steps.'
+)
+RULE = RULE + " " + RULE_ADDENDUM
 LIMITS = ["histories of at most 40 offers; the unbounded 'never' is claimed only for the histories run", "8-key universe"]
 ASSUMPTIONS = ["reference root rule (vf/refs/models.py), reference signer"]
 
